@@ -204,8 +204,8 @@ def it_iterator(ctx, rep):
     it = A.method("StoreImpl", "iter")
     rep.note_fn(it.path)
     p = ctx.paths(it).paths[0]
-    calls = [e for e in p.calls() if e.site is not None and ctx.prog.callee_body(e.site) is not None]
-    good = len(calls) == 1 and len(calls[0].args) >= 3 and str(ctx.const_lit(calls[0].args[1])[1]).startswith("1_") and calls[0].args[2][0] == "agg" and calls[0].args[2][1].endswith("BackpressurePolicy::BlockOnFull")
+    calls = [e for e in p.calls() if e.site is not None and ctx.prog.callee_body(e.site) is not None and (ctx.prog.callee_body(e.site).j.get("impl_adt") or "") == (it.j.get("impl_adt") or "?")]
+    good = len(calls) == 1 and len(calls[0].args) >= 3 and str(ctx.const_lit(calls[0].args[1])[1]).startswith("1_") and (ctx.enum_variant(calls[0].args[2]) or "").endswith("BackpressurePolicy::BlockOnFull")
     rep.check(good, "IT1", "iter-is-capacity-1-blocking", ctx.where(it), "iter() = capacity 1, BlockOnFull (lossless rendezvous)", "iter() passes %s" % [term_str(a) for e in calls for a in e.args])
     inner = ctx.prog.callee_body(calls[0].site) if calls else None
     if inner is not None:
@@ -410,9 +410,13 @@ def ch_channeled(ctx, rep):
     ch_channeled_release(ctx, rep)
     # R5 defaults
     sd = A.method("StoreImpl", "subscribed")
-    p = ctx.paths(sd).paths[0]
-    calls = [e for e in p.calls() if e.site is not None and ctx.prog.callee_body(e.site) is not None and ctx.prog.callee_body(e.site).path == sw.path]
-    good = len(calls) == 1 and ctx.const_lit(calls[0].args[1])[1] == ctx.const_lit(("const", "store::DEFAULT_CAPACITY", "usize"))[1] and (ctx.enum_variant(calls[0].args[2]) or "").endswith("BackpressurePolicy::BlockOnFull") and calls[0].args[3] == ("param", 2)
+    calls = []
+    for p in ctx.paths(sd, inline=True).paths:
+        if p.end != "return":
+            continue
+        calls = [e for e in p.calls() if e.site is not None and ctx.prog.callee_body(e.site) is not None and ctx.prog.callee_body(e.site).path == sw.path]
+        break
+    good = len(calls) == 1 and ctx.const_lit(calls[0].args[1])[1] == ctx.const_lit(("const", "store::DEFAULT_CAPACITY", "usize"))[1] and (ctx.enum_variant(calls[0].args[2]) or "").endswith("BackpressurePolicy::BlockOnFull") and strip_wrap(calls[0].args[3]) == ("param", 2)
     rep.check(good, "R5", "subscribed-defaults", ctx.where(sd), "subscribed() = subscribed_with(DEFAULT_CAPACITY, BlockOnFull, subscriber)", "subscribed() passes %s" % [term_str(a) for e in calls for a in e.args])
     # every other `subscribed` / `subscribed_with` of the crate (Store trait impls and default
     # bodies, wrappers) ends in the channel-creating inherent method: a subscriber asked for
@@ -495,6 +499,8 @@ def ch_channeled_release(ctx, rep):
             reach_e = ctx.sync_reach([e])
             rep.check(any(js.body.path in reach_e for js in cr_sites), "R2", "release-reached-from:%s" % m, ctx.where(e), "%s releases the channel and joins" % m, "%s does not reach the release" % m)
         except AnchorMissing as ex:
+            if tr == "Subscription":
+                continue  # the wrapper's own (unused) Subscription impl may be dropped: the store releases through on_unsubscribe
             rep.anchor_missing("R2", ex.what)
 
 
@@ -564,3 +570,40 @@ def ad1_adapters_forward_unconditionally(ctx, rep, traits=("Subscriber", "Reduce
             good, why = False, "the adapter takes a lock (%s) around the user's closure: two stores sharing the object serialise or skip each other" % locks[0].ck.split("::")[-1]
         rep.check(good and np_ > 0, R, "adapter-forwards-unconditionally:%s" % nm, ctx.where(b), "%s::%s = one call of the wrapped closure with the same arguments on every path" % (nm, b.j.get("name")), "%s::%s: %s" % (nm, b.j.get("name"), why or "no returning path"))
     rep.floor(R, "closure adapters of %s" % "/".join(traits), n, 1)
+
+
+def tf1_store_trait_forwards(ctx, rep):
+    """`impl Store for StoreImpl` is a pure forwarding layer: each trait method reaches the
+    inherent method of the same name (a client holding `Arc<dyn Store>` or generic over `S:
+    Store` gets the same behaviour as one calling the inherent API)"""
+    R = "TF1"
+    A = ctx.A
+    n = 0
+    for b in ctx.prog.bodies:
+        if b.is_closure() or (b.j.get("impl_trait") or "").split("::")[-1].split("<")[0] != "Store":
+            continue
+        if (b.j.get("impl_adt") or "").split("::")[-1] != "StoreImpl":
+            continue
+        name = b.j.get("name")
+        try:
+            inh = A.method("StoreImpl", name)
+        except AnchorMissing:
+            continue
+        n += 1
+        rep.note_fn(b.path)
+        if name in ("stop", "subscribed", "subscribed_with"):
+            continue  # decided by ST1 (delegation or a stop() in its own right) and by R5 (same channel, same defaults)
+        good = True
+        why = ""
+        np_ = 0
+        for p in ctx.paths(b).paths:
+            if p.end != "return":
+                continue
+            np_ += 1
+            own = [ctx.prog.callee_body(e.site) for e in p.calls() if e.site is not None and ctx.prog.callee_body(e.site) is not None]
+            own = [c for c in own if (c.j.get("impl_adt") or "") == (b.j.get("impl_adt") or "?") and not c.j.get("impl_trait") and not c.is_closure()]
+            if [c.path for c in own] != [inh.path]:
+                good, why = False, "path [%s] calls %s" % (p.describe(), [short(c.path) for c in own])
+        rep.check(good and np_ > 0, R, "trait-method-forwards:%s" % name, ctx.where(b), "Store::%s = StoreImpl::%s, nothing else" % (name, name),
+                  "Store::%s is not a plain forward to StoreImpl::%s (%s): trait-object users get different behaviour (e.g. a direct subscriber turned into a channeled one)" % (name, name, why))
+    rep.floor(R, "Store trait methods with an inherent counterpart", n, 4)
